@@ -5,7 +5,7 @@
     kernels is C01/C03 material; its summed form is not proved yet -- see DESIGN.md) and that
     each measurement outcome has more than the reset threshold of probability mass. *)
 From Coq Require Import Reals Lra Lia.
-From QV Require Import Reg ScalarR BitsP VecP C14T RegP C06T.
+From QV Require Import Reg Expr ScalarR BitsP BitsIterP VecP OpP C14T RegP C06T C03T C03T2 NormP.
 Open Scope R_scope.
 
 Definition norm (r : qreg R) : R := sqrt (reg_absolute Rops r).
@@ -167,6 +167,101 @@ Proof.
   intro acts. induction acts as [|a acts IH]; intros r HI Ha; [exact HI|].
   destruct Ha as [H1 H2]. cbn [fold_left]. apply IH; [apply step_inv; assumption|exact H2].
 Qed.
+
+(** ** the same invariant without the unitarity hypothesis: an applied operator only has to be a
+    product of good elements (which every operator built from the public constructors is:
+    [C03T2.eval_good]) addressed to qubits the register has *)
+Lemma blen_pow2 n : blen n = Nat.pow 2 (Nat.max (N.to_nat n) 3).
+Proof.
+  unfold blen, qsize, MIN_BUFFER_LEN. change 8%nat with (Nat.pow 2 3).
+  destruct (Nat.le_ge_cases (N.to_nat n) 3) as [L|G].
+  - rewrite (Nat.max_r _ _ L). apply Nat.max_r. apply Nat.pow_le_mono_r; [discriminate|exact L].
+  - rewrite (Nat.max_l _ _ G). apply Nat.max_l. apply Nat.pow_le_mono_r; [discriminate|exact G].
+Qed.
+
+Definition inside (x M : N) : Prop := N.ldiff x M = 0%N.
+
+Lemma inside_lor a b M : inside (N.lor a b) M <-> inside a M /\ inside b M.
+Proof.
+  unfold inside. split.
+  - intro H. split; apply N.bits_inj; intro t; assert (X := f_equal (fun x => N.testbit x t) H); cbn beta in X;
+      rewrite N.ldiff_spec, N.lor_spec, N.bits_0 in X; rewrite N.ldiff_spec, N.bits_0;
+      destruct (N.testbit a t), (N.testbit b t), (N.testbit M t); try reflexivity; discriminate.
+  - intros [Ha Hb]. apply N.bits_inj. intro t.
+    assert (X := f_equal (fun x => N.testbit x t) Ha). assert (Y := f_equal (fun x => N.testbit x t) Hb). cbn beta in X, Y.
+    rewrite N.ldiff_spec, N.bits_0 in X, Y. rewrite N.ldiff_spec, N.lor_spec, N.bits_0.
+    destruct (N.testbit a t), (N.testbit b t), (N.testbit M t); try reflexivity; discriminate.
+Qed.
+
+Lemma inside_fold (q : multi R) M : forall a,
+  inside (fold_left (fun a s => N.lor a (single_act_on s)) q a) M ->
+  inside a M /\ Forall (fun s => inside (single_act_on s) M) q.
+Proof.
+  induction q as [|s q IH]; intros a H; cbn [fold_left] in H.
+  - split; [exact H|constructor].
+  - destruct (IH _ H) as [H1 H2]. apply inside_lor in H1. destruct H1 as [Ha Hs].
+    split; [exact Ha|constructor; assumption].
+Qed.
+
+Lemma inside_ones_lt x n k : inside x (N.ones n) -> (N.to_nat n <= k)%nat -> (x < p2 k)%N.
+Proof.
+  intros H Hk. apply lt_p2_bits. intros t Ht.
+  assert (X := f_equal (fun y => N.testbit y t) H). cbn beta in X. rewrite N.ldiff_spec, N.bits_0 in X.
+  rewrite N.ones_spec_high in X by lia. cbn [negb] in X. rewrite andb_true_r in X. exact X.
+Qed.
+
+Lemma apply_keeps_sumsq (r : qreg R) (q : multi R) :
+  shaped r -> Forall good_single q -> inside (multi_act_on q) (q_mask r) ->
+  sumsq (multi_apply Rops q (q_psi r)) = sumsq (q_psi r).
+Proof.
+  intros [Hl Hm] G Hin. rewrite Hm in Hin. unfold mask_n in Hin.
+  apply (multi_apply_sumsq (Nat.max (N.to_nat (q_num r)) 3) q G).
+  - apply (inside_fold q _ 0%N) in Hin. destruct Hin as [_ Hin].
+    eapply Forall_impl; [|exact Hin]. intros s Hs. cbv beta in Hs.
+    apply (inside_ones_lt _ (q_num r)); [exact Hs|lia].
+  - rewrite Hl. apply blen_pow2.
+Qed.
+
+Definition admissible_u (r : qreg R) (a : act) : Prop :=
+  match a with
+  | Apply q => Forall good_single q /\ inside (multi_act_on q) (q_mask r)
+  | Measure mask drawn =>
+      N.land mask (q_mask r) <> 0%N ->
+      E15 < norm (reg_collapse Rops r drawn (N.land mask (q_mask r)))
+  | SetNum _ => True
+  end.
+
+Fixpoint admissible_u_all (r : qreg R) (acts : list act) : Prop :=
+  match acts with
+  | [] => True
+  | a :: rest => admissible_u r a /\ admissible_u_all (step r a) rest
+  end.
+
+Lemma admissible_u_adm r a : Inv r -> admissible_u r a -> admissible r a.
+Proof.
+  intros [Hs _]. destruct a as [q|mask drawn|k]; cbn [admissible_u admissible]; try tauto.
+  intros [G Hin]. apply apply_keeps_sumsq; assumption.
+Qed.
+
+Definition C05_invariant_stmt : Prop :=
+  forall (acts : list act) (r : qreg R),
+    Inv r -> admissible_u_all r acts -> Inv (fold_left step acts r).
+
+Lemma C05_invariant_proof : C05_invariant_stmt.
+Proof.
+  intro acts. induction acts as [|a acts IH]; intros r HI Ha; [exact HI|].
+  destruct Ha as [H1 H2]. cbn [fold_left]. apply IH; [|exact H2].
+  apply step_inv; [exact HI|]. apply admissible_u_adm; assumption.
+Qed.
+
+(** every operator expression over the public constructors qualifies *)
+Definition C05_operators_stmt : Prop :=
+  forall (e : opexpr R) (q : multi R) (r : qreg R),
+    word_masks e -> eval Rops e = ROk q -> inside (multi_act_on q) (q_mask r) ->
+    admissible_u r (Apply q).
+
+Lemma C05_operators_proof : C05_operators_stmt.
+Proof. intros e q r W H Hin. split; [apply (eval_good e W q H)|exact Hin]. Qed.
 
 (** every constructor yields a state satisfying the invariant, with norm exactly 1 *)
 Definition C05_construct_stmt : Prop :=
